@@ -521,6 +521,9 @@ func runSso(c Case) *SsoRun {
 		req.Method, req.Body, req.CType = "POST", body.Encode(), "application/x-www-form-urlencoded"
 		f.ParamSigValid = false
 		relayActedOn = relay + "-forged"
+		// the message acted on is the body's: always a well-formed (forged) AuthnRequest, whatever the query's payload is
+		f.RequestNonEmpty = true
+		f.Decodes = f.KnownEncoding
 	case "get-noquery":
 		req.Method = "GET"
 		f.RequestNonEmpty = false
@@ -529,7 +532,7 @@ func runSso(c Case) *SsoRun {
 	r.Req = req
 	f.FormParses = true
 	// --- document facts
-	isAuthn := c["payload"] == "authn" && c["transport"] != "get-noquery"
+	isAuthn := (c["payload"] == "authn" && c["transport"] != "get-noquery") || c["transport"] == "post-query-replay"
 	f.Decodes = f.Decodes && isAuthn
 	f.IssuerPresent = doc.Issuer != "-"
 	f.IssuerRegistered = ((doc.Issuer == spEntity && regErr == nil) || doc.Issuer == spEntityB) && c["lookup"] == "ok"
